@@ -25,6 +25,16 @@ pub enum EntryMode {
     Key,
 }
 
+/// one call on a view object that stays alive for the whole batch
+#[derive(Clone, Debug, PartialEq, Eq, Serialize, Deserialize)]
+pub enum ViewStep<K> {
+    Insert(K, String),
+    Remove(K),
+    Clear,
+    /// get / get_node / contains_key of a key
+    Get(K),
+}
+
 #[derive(Clone, Debug, PartialEq, Eq, Serialize, Deserialize)]
 pub enum Op {
     // creation
@@ -77,9 +87,9 @@ pub enum Op {
     SetNamespace { e: Lid, prefix: String, uri: String },
     RemoveNamespace { e: Lid, prefix: String },
     /// several updates through ONE `attributes_mut` view object: (key, Some(value)) = insert, (key, None) = remove
-    AttrBatch { e: Lid, items: Vec<(Nm, Option<String>)> },
+    AttrBatch { e: Lid, items: Vec<ViewStep<Nm>> },
     /// the same through one `namespaces_mut` view object
-    NsBatch { e: Lid, items: Vec<(String, Option<String>)> },
+    NsBatch { e: Lid, items: Vec<ViewStep<String>> },
     // values
     SetElementName { e: Lid, name: Nm },
     TextSet { n: Lid, s: String },
@@ -437,10 +447,12 @@ impl Op {
                 if m.k(*e) != K::Elem {
                     return Pred::Refuse;
                 }
-                for (name, v) in items {
-                    match v {
-                        Some(value) => m.attr_insert(*e, name, value),
-                        None => m.map_remove(*e, &MapKey::Attr(name.clone())),
+                for st in items {
+                    match st {
+                        ViewStep::Insert(name, value) => m.attr_insert(*e, name, value),
+                        ViewStep::Remove(name) => m.map_remove(*e, &MapKey::Attr(name.clone())),
+                        ViewStep::Clear => m.map_clear(*e, true),
+                        ViewStep::Get(_) => Pred::Done(None),
                     };
                 }
                 Pred::Done(None)
@@ -449,10 +461,12 @@ impl Op {
                 if m.k(*e) != K::Elem {
                     return Pred::Refuse;
                 }
-                for (prefix, v) in items {
-                    match v {
-                        Some(uri) => m.ns_insert(*e, prefix, uri),
-                        None => m.map_remove(*e, &MapKey::Ns(prefix.clone())),
+                for st in items {
+                    match st {
+                        ViewStep::Insert(prefix, uri) => m.ns_insert(*e, prefix, uri),
+                        ViewStep::Remove(prefix) => m.map_remove(*e, &MapKey::Ns(prefix.clone())),
+                        ViewStep::Clear => m.map_clear(*e, false),
+                        ViewStep::Get(_) => Pred::Done(None),
                     };
                 }
                 Pred::Done(None)
@@ -588,6 +602,11 @@ impl Op {
     /// Must only be called with live nodes (calls on removed nodes are documented to panic).
     pub fn apply_real(&self, x: &mut Xot, h: &dyn Fn(Lid) -> Node) -> Result<Option<Node>, String> {
         use Op::*;
+        fn note(first: &mut Option<String>, m: String) {
+            if first.is_none() {
+                *first = Some(m);
+            }
+        }
         fn name(x: &mut Xot, n: &Nm) -> xot::NameId {
             let ns = x.add_namespace(&n.uri);
             x.add_name_ns(&n.local, ns)
@@ -762,33 +781,117 @@ impl Op {
                 Ok(a.get_node(p))
             }
             AttrBatch { e, items } => {
-                let keys: Vec<_> = items.iter().map(|(nm, _)| name(x, nm)).collect();
+                let keyed: Vec<(Option<xot::NameId>, &ViewStep<Nm>)> = items
+                    .iter()
+                    .map(|st| match st {
+                        ViewStep::Insert(k, _) | ViewStep::Remove(k) | ViewStep::Get(k) => (Some(name(x, k)), st),
+                        ViewStep::Clear => (None, st),
+                    })
+                    .collect();
+                let mut first: Option<String> = None;
                 let mut a = x.attributes_mut(h(*e));
-                for (k, (_, v)) in keys.iter().zip(items.iter()) {
-                    // what the view hands back must be what the same view showed just before
-                    let before = a.get(*k).cloned();
-                    let got = match v {
-                        Some(value) => a.insert(*k, value.clone()),
-                        None => a.remove(*k),
-                    };
-                    if got != before {
-                        return Err(format!("oracle:C11:attributes_mut view returned {:?} as previous value, get() showed {:?}", got, before));
+                // what the view itself must show after every step: a plain ordered map
+                let mut shadow: Vec<(xot::NameId, String)> = a.to_vec().into_iter().map(|(k, v)| (k, v.clone())).collect();
+                for (k, st) in keyed {
+                    match (k, st) {
+                        (Some(k), ViewStep::Insert(_, value)) => {
+                            let before = shadow.iter().find(|(sk, _)| *sk == k).map(|(_, v)| v.clone());
+                            let got = a.insert(k, value.clone());
+                            if got != before {
+                                note(&mut first, format!("attributes_mut view: insert returned {:?} as previous value, the map held {:?}", got, before));
+                            }
+                            match shadow.iter_mut().find(|(sk, _)| *sk == k) {
+                                Some(ent) => ent.1 = value.clone(),
+                                None => shadow.push((k, value.clone())),
+                            }
+                        }
+                        (Some(k), ViewStep::Remove(_)) => {
+                            let before = shadow.iter().find(|(sk, _)| *sk == k).map(|(_, v)| v.clone());
+                            let got = a.remove(k);
+                            if got != before {
+                                note(&mut first, format!("attributes_mut view: remove returned {:?}, the map held {:?}", got, before));
+                            }
+                            shadow.retain(|(sk, _)| *sk != k);
+                        }
+                        (Some(k), ViewStep::Get(_)) => {
+                            let want = shadow.iter().find(|(sk, _)| *sk == k).map(|(_, v)| v.clone());
+                            let got = a.get(k).cloned();
+                            if got != want || a.contains_key(k) != want.is_some() || a.get_node(k).is_some() != want.is_some() {
+                                note(&mut first, format!("attributes_mut view: get / contains_key / get_node of a key give {:?}, the map holds {:?}", got, want));
+                            }
+                        }
+                        (_, ViewStep::Clear) => {
+                            a.clear();
+                            shadow.clear();
+                        }
+                        _ => {}
                     }
+                    let now: Vec<(xot::NameId, String)> = a.to_vec().into_iter().map(|(k, v)| (k, v.clone())).collect();
+                    if now != shadow || a.len() != shadow.len() || a.is_empty() != shadow.is_empty() {
+                        note(&mut first, format!("attributes_mut view shows {:?} after a step, an ordered map would hold {:?}", now, shadow));
+                    }
+                }
+                if let Some(m) = first {
+                    // the calls go on after a disagreement (what they leave behind is for the read-back to judge)
+                    crate::world::push_soft(crate::world::Violation::new("C11", "view-disagreement", format!("{}: {}", self.name(), m)));
                 }
                 Ok(None)
             }
             NsBatch { e, items } => {
-                let keys: Vec<_> = items.iter().map(|(p, v)| (x.add_prefix(p), v.as_ref().map(|u| x.add_namespace(u)))).collect();
+                let keyed: Vec<(Option<xot::PrefixId>, Option<xot::NamespaceId>, &ViewStep<String>)> = items
+                    .iter()
+                    .map(|st| match st {
+                        ViewStep::Insert(k, u) => (Some(x.add_prefix(k)), Some(x.add_namespace(u)), st),
+                        ViewStep::Remove(k) | ViewStep::Get(k) => (Some(x.add_prefix(k)), None, st),
+                        ViewStep::Clear => (None, None, st),
+                    })
+                    .collect();
+                let mut first: Option<String> = None;
                 let mut a = x.namespaces_mut(h(*e));
-                for (p, v) in keys {
-                    let before = a.get(p).copied();
-                    let got = match v {
-                        Some(u) => a.insert(p, u),
-                        None => a.remove(p),
-                    };
-                    if got != before {
-                        return Err(format!("oracle:C11:namespaces_mut view returned {:?} as previous value, get() showed {:?}", got, before));
+                let mut shadow: Vec<(xot::PrefixId, xot::NamespaceId)> = a.to_vec();
+                for (k, u, st) in keyed {
+                    match (k, st) {
+                        (Some(k), ViewStep::Insert(..)) => {
+                            let u = u.unwrap();
+                            let before = shadow.iter().find(|(sk, _)| *sk == k).map(|(_, v)| *v);
+                            let got = a.insert(k, u);
+                            if got != before {
+                                note(&mut first, format!("namespaces_mut view: insert returned {:?} as previous value, the map held {:?}", got, before));
+                            }
+                            match shadow.iter_mut().find(|(sk, _)| *sk == k) {
+                                Some(ent) => ent.1 = u,
+                                None => shadow.push((k, u)),
+                            }
+                        }
+                        (Some(k), ViewStep::Remove(_)) => {
+                            let before = shadow.iter().find(|(sk, _)| *sk == k).map(|(_, v)| *v);
+                            let got = a.remove(k);
+                            if got != before {
+                                note(&mut first, format!("namespaces_mut view: remove returned {:?}, the map held {:?}", got, before));
+                            }
+                            shadow.retain(|(sk, _)| *sk != k);
+                        }
+                        (Some(k), ViewStep::Get(_)) => {
+                            let want = shadow.iter().find(|(sk, _)| *sk == k).map(|(_, v)| *v);
+                            let got = a.get(k).copied();
+                            if got != want || a.contains_key(k) != want.is_some() || a.get_node(k).is_some() != want.is_some() {
+                                note(&mut first, format!("namespaces_mut view: get / contains_key / get_node of a key give {:?}, the map holds {:?}", got, want));
+                            }
+                        }
+                        (_, ViewStep::Clear) => {
+                            a.clear();
+                            shadow.clear();
+                        }
+                        _ => {}
                     }
+                    let now: Vec<(xot::PrefixId, xot::NamespaceId)> = a.to_vec();
+                    if now != shadow || a.len() != shadow.len() || a.is_empty() != shadow.is_empty() {
+                        note(&mut first, format!("namespaces_mut view shows {:?} after a step, an ordered map would hold {:?}", now, shadow));
+                    }
+                }
+                if let Some(m) = first {
+                    // the calls go on after a disagreement (what they leave behind is for the read-back to judge)
+                    crate::world::push_soft(crate::world::Violation::new("C11", "view-disagreement", format!("{}: {}", self.name(), m)));
                 }
                 Ok(None)
             }
